@@ -460,7 +460,12 @@ class C15Same(Suite):
         ts = b["default"]
         t1 = rng.choice(ts)
         r = rng.random()
-        if r < 0.35:
+        if r < 0.15:
+            # a GROUND pattern next to the open one: fully bound when the store is asked (the shape (s, p, o));
+            # chosen without consuming random numbers
+            t2 = ts[(ts.index(t1) + 1) % len(ts)]
+            tps = [[-1, t1[1], -2], list(t2)]
+        elif r < 0.35:
             tps = [[-1, t1[1], -2], [-2, -3, -1]]
         elif r < 0.6:
             tps = [[-1, t1[1], -2], [-1, -3, -2]]
@@ -870,7 +875,7 @@ RULE = ("suite variants: every generated C04 SELECT case (12 % DISTINCT; 10 % 't
         "variables renamed by a random permutation (observed in a group of its own together with the base), (e) with initBindings against a VALUES row, and in 8 % with two prefixes for one namespace; "
         "suite same_query (no trigger predicate): prefix/BASE spellings, SimpleMemory / AuditableStore(Memory) / ReadOnlyGraphAggregate of two "
         "disjoint graphs, AuditableStore(SimpleMemory) and an aggregate of SimpleMemory graphs (15 % of the cases ask a variable predicate "
-        "between two bound ends), DISTINCT and REDUCED against the harness-de-duplicated plain answer, two evaluations of one prepared object "
+        "between two bound ends, or a ground triple pattern next to an open one), DISTINCT and REDUCED against the harness-de-duplicated plain answer, two evaluations of one prepared object "
         "in flight at the same time (A started, k rows taken, B with other initBindings run to the end, A finished; 20 % BGP chains whose two "
         "ends are the pre-bound variables), and a sequence of 6-7 evaluations of ONE "
         "prepareQuery object on two graphs, with no / one / another initBindings (30 % of the cases are nested-group FILTER/BIND queries whose "
